@@ -324,26 +324,35 @@ class Context(object):
             if frame is self.__dict__["_root"]:
                 continue
             if attr in frame:
-                record = self.__dict__["_record"][attr]
-                params = {
-                    "attr": attr,
-                    "filename": record[0],
-                    "line": record[1],
-                    "function": record[3],
-                }
-                self._emit_warning(attr, params)
+                self._emit_masking_warning(attr)
 
         self.__dict__["_root"][attr] = value
         if attr not in self._origin:
             self._origin[attr] = self._mode
 
+    def _emit_masking_warning(self, attr):
+        # -- NOTE: Names that are stored in the root frame directly
+        #    (failed, aborted, config, ..., _set_root_attribute()) have no record.
+        record = self.__dict__["_record"].get(attr)
+        if record is None:
+            record = ("<unknown>", 0, None, "<unknown>")
+        params = {
+            "attr": attr,
+            "filename": record[0],
+            "line": record[1],
+            "function": record[3],
+        }
+        self._emit_warning(attr, params)
+
     def _emit_warning(self, attr, params):
         msg = ""
-        if self._mode is ContextMode.BEHAVE and self._origin[attr] is not ContextMode.BEHAVE:
+        # -- NOTE: Names without origin are the initial root names (set by behave).
+        origin = self._origin.get(attr, ContextMode.BEHAVE)
+        if self._mode is ContextMode.BEHAVE and origin is not ContextMode.BEHAVE:
             msg = "behave runner is masking context attribute '%(attr)s' " \
                   "originally set in %(function)s (%(filename)s:%(line)s)"
         elif self._mode is ContextMode.USER:
-            if self._origin[attr] is not ContextMode.USER:
+            if origin is not ContextMode.USER:
                 msg = "user code is masking context attribute '%(attr)s' " \
                       "originally set by behave"
             elif self._config.verbose:
@@ -384,14 +393,7 @@ class Context(object):
 
         for frame in self._stack[1:]:
             if attr in frame:
-                record = self._record[attr]
-                params = {
-                    "attr": attr,
-                    "filename": record[0],
-                    "line": record[1],
-                    "function": record[3],
-                }
-                self._emit_warning(attr, params)
+                self._emit_masking_warning(attr)
 
         stack_limit = 2
         if six.PY2:
@@ -407,7 +409,7 @@ class Context(object):
         frame = self._stack[0]
         if attr in frame:
             del frame[attr]
-            del self._record[attr]
+            self._record.pop(attr, None)
         else:
             msg = "'{0}' object has no attribute '{1}' at the current level"
             msg = msg.format(self.__class__.__name__, attr)
